@@ -48,7 +48,7 @@ Print Assumptions C16_ids_fresh.
 (* Key codec: filepath.Join("/events/", %016x) parses back, and byte order of keys = id order
    (so the bbolt cursor yields events in id order). *)
 Theorem C16_key_roundtrip : forall id, 1 <= id -> id < two64N -> parse_event_id (event_key id) = Some id.
-Proof. intros id H1 H2. apply key_roundtrip. split; assumption. Qed.
+Proof. exact key_roundtrip_range. Qed.
 Print Assumptions C16_key_roundtrip.
 
 Theorem C16_key_order : forall a b, a < two64N -> b < two64N ->
